@@ -151,6 +151,13 @@ rep0_ctx_send(void *arg, nni_aio *aio)
 	nni_msg_header_clear(msg);
 
 	nni_mtx_lock(&s->lk);
+	if (ctx->saio != NULL) {
+		// The previous reply is still waiting for its pipe; queueing
+		// this context a second time would corrupt the send queue.
+		nni_mtx_unlock(&s->lk);
+		nni_aio_finish_error(aio, NNG_ESTATE);
+		return;
+	}
 	len  = ctx->btrace_len;
 	p_id = ctx->pipe_id;
 
